@@ -9,17 +9,18 @@ AbsI(x) == IF x < 0 THEN -x ELSE x
 RNorm(p, q) == IF p = 0 THEN <<0, 1>>
                ELSE LET g == GcdN(AbsI(p), AbsI(q))  s == IF q < 0 THEN -1 ELSE 1 IN <<(s * p) \div g, (s * q) \div g>>
 RQ(i) == <<i, 1>>
-RAdd(a, b) == RNorm(a[1] * b[2] + b[1] * a[2], a[2] * b[2])
-RSub(a, b) == RNorm(a[1] * b[2] - b[1] * a[2], a[2] * b[2])
+\* sums over the least common denominator (denominators are mostly powers of two here: keeps values small)
+RAdd(a, b) == LET g == GcdN(a[2], b[2]) IN RNorm(a[1] * (b[2] \div g) + b[1] * (a[2] \div g), (a[2] \div g) * b[2])
+RSub(a, b) == LET g == GcdN(a[2], b[2]) IN RNorm(a[1] * (b[2] \div g) - b[1] * (a[2] \div g), (a[2] \div g) * b[2])
 RMul(a, b) == LET g1 == GcdN(AbsI(a[1]), b[2])  g2 == GcdN(AbsI(b[1]), a[2]) IN    \* cross-reduce first: keeps products small
               IF a[1] = 0 \/ b[1] = 0 THEN <<0, 1>>
               ELSE RNorm((a[1] \div g1) * (b[1] \div g2), (a[2] \div g2) * (b[2] \div g1))
 RDiv(a, b) == RMul(a, IF b[1] < 0 THEN <<-b[2], -b[1]>> ELSE <<b[2], b[1]>>)
 RNeg(a) == <<-a[1], a[2]>>
 RAbs(a) == <<AbsI(a[1]), a[2]>>
-RLt(a, b) == a[1] * b[2] < b[1] * a[2]
-RLe(a, b) == a[1] * b[2] <= b[1] * a[2]
-REq(a, b) == a[1] * b[2] = b[1] * a[2]
+RLt(a, b) == LET g == GcdN(a[2], b[2]) IN a[1] * (b[2] \div g) < b[1] * (a[2] \div g)
+RLe(a, b) == LET g == GcdN(a[2], b[2]) IN a[1] * (b[2] \div g) <= b[1] * (a[2] \div g)
+REq(a, b) == LET g == GcdN(a[2], b[2]) IN a[1] * (b[2] \div g) = b[1] * (a[2] \div g)
 RMin(a, b) == IF RLe(a, b) THEN a ELSE b
 RMax(a, b) == IF RLe(a, b) THEN b ELSE a
 RSign(a) == IF a[1] > 0 THEN 1 ELSE IF a[1] < 0 THEN -1 ELSE 0
